@@ -289,6 +289,25 @@ def build_c(unit, units, outdir, defines=()):
     b_used_contract = [n for n in used if n not in inl and units[n].get('kind') != 'stub' or (units[n].get('kind') == 'stub' and units[n]['sections'].get('signature', '').strip())]
     b_used_contract = [n for n in b_used_contract if n not in inl]
     body = splice(main['body'], unit['sections'], unit['name'])
+
+    def named_call(m):
+        # @CALL f(name=expr, ...)@ in a lemma body: arguments are matched to the parameter NAMES of the extracted function, so the
+        # lemma does not depend on the order in which the extractor lists a fragment's free variables
+        fn_, argtxt = m.group(1), m.group(2)
+        if fn_ not in rendered or not rendered[fn_].get('params') and not rendered[fn_].get('sig'):
+            raise ExtractionBreak('@CALL of unknown unit %s' % fn_)
+        given = {}
+        for a_ in ast2c.split_targs(argtxt):
+            if '=' not in a_:
+                raise specmod.SpecError('@CALL %s: argument without a name: %s' % (fn_, a_))
+            k_, v_ = a_.split('=', 1)
+            given[k_.strip()] = v_.strip()
+        sm = re.match(r'^(.*?)\s(\w+)\((.*)\)$', rendered[fn_]['sig'], re.S)
+        pnames = [re.match(r'^(.*?)(\w+)$', p_.strip()).group(2) for p_ in (ast2c.split_targs(sm.group(3)) if sm.group(3).strip() != 'void' else [])]
+        if set(pnames) != set(given):
+            raise ExtractionBreak('interface of %s changed: parameters %s, lemma passes %s' % (fn_, sorted(pnames), sorted(given)))
+        return '%s(%s)' % (fn_, ', '.join(given[p_] for p_ in pnames))
+    body = re.sub(r'@CALL\s+(\w+)\((.*?)\)@', named_call, body, flags=re.S)
     parts = ['/* GENERATED by /verif/tools/driver.py from %s (unit %s) -- do not edit */' % (unit.get('tu', 'lemma'), unit['name'])]
     parts += list(defines) + ['#include "nvec.h"']
     gl = []
